@@ -3,6 +3,7 @@
   Core-only so that it links as a `lean_exe`.
 -/
 import Driver.MountFS
+import Driver.CmdFlow
 
 open Desync Driver
 
@@ -13,7 +14,7 @@ partial def loop (h : IO.FS.Stream) (out : IO.FS.Stream) : IO Unit := do
   if l.isEmpty || l.startsWith "#" then
     loop h out
   else
-    let r := runLine9 l
+    let r := runLineCmdFlow l
     out.putStrLn r
     out.flush
     loop h out
